@@ -292,3 +292,43 @@ func c03OneOctetThreshold(c *core.Ctx) {
 	}
 	c.Floor("R3.20", "hand-written EncodingLength / EncodeInto / Bytes methods of std/encoding", n, 4)
 }
+
+// c03NameReserveNotCapped — R3.21 "any name (0..N components)": a name reader reserves
+// room for the components by the announced length (l/2+1 at most) and then reads into
+// what it reserved; a reserve capped by a constant (min(l/2+1, 64)) makes the reader stop
+// — with an error — at that many components. No allocation of an enc.Name in a parser of
+// the repository is sized by min(·, constant).
+func c03NameReserveNotCapped(c *core.Ctx) {
+	p := c.P
+	n, bad := 0, ""
+	for _, fn := range p.Funcs() {
+		if fn.Pkg == nil || !strings.HasPrefix(fn.Pkg.Pkg.Path(), core.ModPath+"/std/") || fn.Blocks == nil || strings.HasSuffix(p.File(fn.Pos()), "_test.go") {
+			continue
+		}
+		core.Instrs(fn, func(in ssa.Instruction) {
+			mk, ok := in.(*ssa.MakeSlice)
+			if !ok {
+				return
+			}
+			nt, isN := mk.Type().(*types.Named)
+			if !isN || nt.Obj().Name() != "Name" || nt.Obj().Pkg() == nil || nt.Obj().Pkg().Path() != core.ModPath+"/std/encoding" {
+				return
+			}
+			if _, isK := core.ConstInt(mk.Len); isK {
+				return
+			}
+			n++
+			if cl, isCall := core.StripConv(mk.Len).(*ssa.Call); isCall {
+				if b, isB := cl.Call.Value.(*ssa.Builtin); isB && b.Name() == "min" {
+					for _, a := range cl.Call.Args {
+						if _, isK := core.ConstInt(a); isK {
+							bad = c.Pos(mk)
+						}
+					}
+				}
+			}
+		})
+	}
+	c.Decide(bad == "", "R3.21", "name-reserve-not-capped-by-a-constant", "-", fmt.Sprintf("%d allocations of a name sized by a computed length, none capped by a constant", n), "a name reader reserves min(·, constant) components at "+bad+" and reads into what it reserved: a name with more components than the constant is refused (ErrBufferOverflow) although its encoding is well-formed")
+	c.Floor("R3.21", "allocations of a name sized by a computed length in std/", n, 3)
+}
